@@ -46,6 +46,39 @@ impl DltMessage {
     }
 }
 
+// ---------- C08: the membership decision of Lifecycle::update, as the property and the comments of the function state it ----------
+// the calculated start of a message: reception time minus timestamp (saturating)
+pub open spec fn calc_start(m: &DltMessage) -> int { if m.reception_time_us as int >= m.timestamp_dms as int * 100 { m.reception_time_us as int - m.timestamp_dms as int * 100 } else { 0 } }
+pub open spec fn spec_ctrl_req(m: &DltMessage) -> bool { match m.extended_header { Some(e) => (e.verb_mstp_mtin >> 1) & 0x07 == 3 && e.verb_mstp_mtin >> 4 == 1, None => false } }
+pub open spec fn spec_end(lc: &Lifecycle) -> int { if lc.max_timestamp_us == 0 { lc.last_reception_time as int } else { lc.start_time + lc.max_timestamp_us } }
+// "slightly overlapping": within the last 2 s of a lifecycle that is at least 10 s long
+pub open spec fn spec_slightly(lc: &Lifecycle, o: int) -> bool { o <= spec_end(lc) && o + 2_000_000 > spec_end(lc) && spec_end(lc) > lc.start_time + 10_000_000 }
+pub open spec fn spec_part_of(lc: &Lifecycle, m: &DltMessage) -> bool {
+    (!spec_slightly(lc, calc_start(m)) && calc_start(m) <= spec_end(lc)) || m.standard_header.htyp & 16 == 0
+}
+pub open spec fn spec_is_resume(lc: &Lifecycle, m: &DltMessage) -> bool {
+    let ts = m.timestamp_dms as int * 100;
+    m.reception_time_us >= lc.last_reception_time + 10_000_000 && ts >= lc.max_timestamp_us && calc_start(m) >= lc.start_time + 10_000_000
+        && (m.reception_time_us - lc.last_reception_time) + 30_000_000 > calc_start(m) - lc.start_time
+}
+pub open spec fn spec_would_move(lc: &Lifecycle, m: &DltMessage) -> int { if calc_start(m) < lc.start_time { lc.start_time - calc_start(m) } else { 0 } }
+// the message is counted to the lifecycle without touching its times (the "likely wrong timestamp" heuristic)
+pub open spec fn spec_ignored_time(lc: &Lifecycle, m: &DltMessage, max_buf: u64) -> bool { spec_part_of(lc, m) && spec_would_move(lc, m) > max_buf && lc.max_timestamp_us > 0 }
+// the message belongs to the lifecycle (update returns None)
+pub open spec fn spec_belongs(lc: &Lifecycle, m: &DltMessage, max_buf: u64) -> bool {
+    spec_ctrl_req(m) || spec_ignored_time(lc, m, max_buf) || (!spec_is_resume(lc, m) && spec_part_of(lc, m))
+}
+// The two induction steps of the clean-trace theorem, from the property: (1) a further message of the same boot with the same delay -
+// its calculated start IS the lifecycle's start - belongs to the lifecycle and leaves start = boot + delay, end = start + largest timestamp;
+pub proof fn lemma_clean_same_boot(lc: &Lifecycle, m: &DltMessage, max_buf: u64)
+    requires lc.wf(), lc.resume_lc is None, !spec_ctrl_req(m), m.standard_header.htyp & 16 != 0, calc_start(m) == lc.start_time, lc.start_time <= lc.last_reception_time,
+    ensures spec_belongs(lc, m, max_buf), !spec_ignored_time(lc, m, max_buf), // O:clean.same_boot
+{}
+// (2) a message whose calculated start lies after the lifecycle's end - the first message of a later boot - does not belong to it.
+pub proof fn lemma_clean_next_boot(lc: &Lifecycle, m: &DltMessage, max_buf: u64)
+    requires lc.wf(), !spec_ctrl_req(m), m.standard_header.htyp & 16 != 0, calc_start(m) > spec_end(lc),
+    ensures !spec_belongs(lc, m, max_buf), // O:clean.next_boot
+{}
 impl Lifecycle {
     pub open spec fn merged(&self) -> bool { self.nr_msgs == 0 }
     pub open spec fn wf(&self) -> bool {
@@ -100,6 +133,7 @@ impl Lifecycle {
 //@ extract src/lifecycle/mod.rs Lifecycle::is_slightly_overlapping
 //@   spec
 //@|    requires self.wf(), other_start_us <= T_MAX(),
+//@|    ensures r == spec_slightly(self, other_start_us as int), // O:clean.slightly
 //@ end
 
 //@ extract src/lifecycle/mod.rs Lifecycle::new
@@ -113,6 +147,8 @@ impl Lifecycle {
 //@|        r.nr_msgs == 1 && r.resume_lc is None && r.nr_control_req_msgs <= 1,
 //@|        r.wf(), // O:new.wf
 //@|        final(msg).same_but_lifecycle(old(msg)), // O:new.frame
+//@|        !spec_ctrl_req(old(msg)) && old(msg).timestamp_dms as int * 100 <= old(msg).reception_time_us ==>
+//@|            r.start_time == calc_start(old(msg)) && r.max_timestamp_us == old(msg).timestamp_dms as int * 100 && r.last_reception_time == old(msg).reception_time_us, // O:clean.new (a lifecycle opened by a message starts at reception time minus timestamp and ends at start plus that timestamp)
 //@ end
 
 //@ extract src/lifecycle/mod.rs Lifecycle::merge
@@ -150,6 +186,13 @@ impl Lifecycle {
 //@|        final(self).id == old(self).id && final(self).ecu == old(self).ecu,
 //@|        final(self).wf(), // O:update.wf
 //@|        final(self).nr_control_req_msgs <= final(self).nr_msgs,
+//@|        (r is None) == spec_belongs(old(self), old(msg), max_buffering_delay_us), // O:clean.decision (the membership test: calculated start no later than the current end, with the slightly-overlapping, resume, control-request and wrong-timestamp exceptions)
+//@|        r is None && !spec_ctrl_req(old(msg)) && !spec_ignored_time(old(self), old(msg), max_buffering_delay_us) ==>
+//@|            final(self).start_time == (if calc_start(old(msg)) < old(self).start_time { calc_start(old(msg)) } else { old(self).start_time as int })
+//@|            && final(self).max_timestamp_us == (if old(self).max_timestamp_us < old(msg).timestamp_dms as int * 100 { old(msg).timestamp_dms as int * 100 } else { old(self).max_timestamp_us as int })
+//@|            && final(self).last_reception_time == old(msg).reception_time_us, // O:clean.times (start = smallest calculated start, end = start + largest timestamp)
+//@|        r is Some && !spec_ctrl_req(old(msg)) && old(msg).timestamp_dms as int * 100 <= old(msg).reception_time_us ==>
+//@|            r->Some_0.start_time == calc_start(old(msg)) && r->Some_0.max_timestamp_us == old(msg).timestamp_dms as int * 100, // O:clean.opened
 //@ end
 }
 
